@@ -24,13 +24,13 @@ func init() {
 	register(&mc.Prop{
 		ID: "C08",
 		Rule: "definitions: (a) every supported representative and every unsupported kind (complex64/128, array, chan, func, interface, uintptr, unsafe.Pointer) in every nesting position (direct, *X, []X, [][]X, []*X, map key, map value, nested struct field, *map, []map, map[K]map, top level) x four configurations; " +
-			"(b) the full matrix of 24 tag strings (well-formed, malformed, every option) x 14 field kinds; (c) duplicate indexes in every arrangement, skipped and unexported fields; (d) hand-written types with unexported, blank, underscore-named and skipped fields. " +
+			"(a') every one of those nestings under every tag option {flat, intern, proto, bogus}; (b) the full matrix of 24 tag strings (well-formed, malformed, every option) x 14 field kinds; (c) duplicate indexes in every arrangement, skipped and unexported fields; (d) hand-written types with unexported, blank, underscore-named and skipped fields. " +
 			"Oracle: never a panic or fault; model says reject => non-nil error with a message; model says accept (or the corner is undocumented and plenc accepts) => the codec passes a round-trip and size/append battery on zero and non-zero values; after a rejection every independently valid sub-type still works on the same instance (registry not poisoned); " +
 			"unexported and '-' fields are neither encoded nor written. non-trivial = definition the model rejects or judges undocumented",
 		Assumptions: []string{"ref.Accept is the documented acceptance rule (DESIGN Appendix A rule 12 and C08's statement); indexes above 65536 are outside the alphabet (fieldsByIndex is a dense slice)"},
 		Work:        c08Work,
 		Post: func(a *mc.Agg) []string {
-			return needDims(a, "verdict:accept", "verdict:reject", "verdict:either", "set:kinds", "set:tags", "set:dups", "set:unexported", "subtype-probe")
+			return needDims(a, "verdict:accept", "verdict:reject", "verdict:either", "set:kinds", "set:options", "set:tags", "set:dups", "set:unexported", "subtype-probe")
 		},
 	})
 }
@@ -66,6 +66,10 @@ func c08Defs() []c08Def {
 			}
 			add("kinds", s)
 			add("kinds", field(s))
+			// the full option x shape matrix: every nesting under every tag option
+			for _, o := range []string{"flat", "intern", "proto", "bogus"} {
+				add("options", ref.Struct(ref.F{Name: "F", Index: 1, Opt: o, T: s}, ref.F{Name: "Z", Index: 9, T: L(ref.KInt)}))
+			}
 		}
 	}
 	tags := []string{"-", "0", "1", "01", "+1", "-1", "1,", "1,flat", "1,intern", "1,proto", "1,bogus", "1,intern,flat", "x", "1.5", " 1", "99999999999999999999", ",", "-,x", "65536",
@@ -176,7 +180,9 @@ func c08Work(c *mc.Ctx) {
 			continue
 		}
 		cfgs := ref.Cfgs
-		if d.set != "kinds" {
+		if d.set == "options" {
+			cfgs = []ref.Cfg{ref.Cfgs[0], ref.Cfgs[3]}
+		} else if d.set != "kinds" {
 			cfgs = ref.Cfgs[:1]
 		}
 		for _, cfg := range cfgs {
